@@ -84,6 +84,8 @@ type Exec struct {
 	sched     *scheduler
 	nextIsDeferred bool
 	hugeNext  bool
+	keySeq    int
+	tls       map[int]map[uint64]Value
 	intrinsicFn *ssa.Function // the (instantiated) function an intrinsic stands for
 	initStores map[*ssa.Package]map[*ssa.Global]bool
 	initOrder  []*ssa.Package // packages whose init was triggered lazily (cumulative over paths)
@@ -193,8 +195,29 @@ func (x *Exec) startPath() {
 	}
 }
 
+// tlsCells is the thread-specific storage of the running thread.
+func (x *Exec) tlsCells() map[uint64]Value {
+	if x.tls == nil {
+		x.tls = map[int]map[uint64]Value{}
+	}
+	id := x.threadID()
+	if x.tls[id] == nil {
+		x.tls[id] = map[uint64]Value{}
+	}
+	return x.tls[id]
+}
+
+func (x *Exec) threadID() int {
+	if x.sched != nil {
+		return x.sched.current()
+	}
+	return 0
+}
+
 // resetPath clears per-path state; call at the start of every explored path.
 func (x *Exec) resetPath() {
+	x.keySeq = 0
+	x.tls = nil
 	if os.Getenv("SYMX_DEBUG") != "" {
 		x.M.Mem.OnOOB = func(what string) {
 			for f := x.curFrame; f != nil; f = f.caller {
